@@ -400,15 +400,20 @@ class EmbeddingTensorMapper(TensorMapper):
             If you use heavy embedding model with GPU, we recommend you setting
             :obj:`batch_size` to a reasonable number to avoid the GPU OOM
             issue.
+        emb_dim (int, optional): The width of pre-computed embeddings, used
+            for missing cells when :obj:`embedder` is :obj:`None`. If
+            :obj:`None`, it is taken from the first non-missing cell.
     """
     def __init__(
         self,
         embedder: Callable[[list[Any]], Tensor] | None = None,
         batch_size: int | None = None,
+        emb_dim: int | None = None,
     ):
         super().__init__()
         self.embedder = embedder
         self.batch_size = batch_size
+        self.emb_dim = emb_dim
 
     def forward(
         self,
@@ -432,9 +437,12 @@ class EmbeddingTensorMapper(TensorMapper):
             dtype = _get_default_numpy_dtype()
             embs = ser.values
             na_mask = ser.isna().values
-            if na_mask.any() and not na_mask.all():
+            emb_dim = self.emb_dim
+            if (emb_dim is None or emb_dim < 0) and not na_mask.all():
+                emb_dim = len(embs[(~na_mask).argmax()])
+            if na_mask.any() and emb_dim is not None and emb_dim >= 0:
                 # Missing cells become NaN vectors of the column's width.
-                nan_emb = np.full(len(embs[(~na_mask).argmax()]), np.nan)
+                nan_emb = np.full(emb_dim, np.nan)
                 embs = [nan_emb if na else emb
                         for emb, na in zip(embs, na_mask)]
             values = torch.from_numpy(np.stack(embs).astype(dtype))
